@@ -16,7 +16,7 @@ var modelKeys = []string{
 	"bytes.Equal", "errors.New", "errors.Errorf", "fmt.Errorf", "errors.Wrap", "errors.Wrapf",
 	"fmt.Sprintf", "fmt.Sprint", "iface:error.Error", "strings.Join",
 	"iface:context.Context.Err", "iface:context.Context.Done", "context.WithCancel", "context.Background", "context.TODO",
-	"sort.Slice", "math.Floor", "math.Pow", "time.AfterFunc", "(*time.Timer).Stop", "(time.Duration).Nanoseconds",
+	"sort.Slice", "math.Floor", "math.Pow", "math.Ceil", "math.Trunc", "math.Round", "math.Abs", "math.Sqrt", "math.Max", "math.Min", "math.Log2", "math.Exp2", "math.Ldexp", "time.AfterFunc", "(*time.Timer).Stop", "(time.Duration).Nanoseconds",
 	"runtime.NumGoroutine", "time.Now", "(time.Time).Sub",
 }
 
@@ -67,6 +67,42 @@ func (f *Frame) modelCall(key string, sig *types.Signature, args []Val, st *Stat
 	case key == "math.Floor":
 		vc.used["T-FP"] = true
 		return Val{sx("fp.roundToIntegral", "RTN", args[0].t), SFP, resT(0)}, true
+	case key == "math.Ceil":
+		vc.used["T-FP"] = true
+		return Val{sx("fp.roundToIntegral", "RTP", args[0].t), SFP, resT(0)}, true
+	case key == "math.Trunc":
+		vc.used["T-FP"] = true
+		return Val{sx("fp.roundToIntegral", "RTZ", args[0].t), SFP, resT(0)}, true
+	case key == "math.Round":
+		vc.used["T-FP"] = true
+		return Val{sx("fp.roundToIntegral", "RNA", args[0].t), SFP, resT(0)}, true
+	case key == "math.Abs":
+		vc.used["T-FP"] = true
+		return Val{sx("fp.abs", args[0].t), SFP, resT(0)}, true
+	case key == "math.Sqrt":
+		vc.used["T-FP"] = true
+		return Val{sx("fp.sqrt", "RNE", args[0].t), SFP, resT(0)}, true
+	case key == "math.Max":
+		vc.used["T-FP"] = true
+		return Val{sx("fp.max", args[0].t, args[1].t), SFP, resT(0)}, true
+	case key == "math.Min":
+		vc.used["T-FP"] = true
+		return Val{sx("fp.min", args[0].t, args[1].t), SFP, resT(0)}, true
+	case key == "math.Exp2":
+		vc.used["A-POW"] = true
+		vc.P.needSym["pow2fp"] = true
+		return Val{sx("pow2fp", args[0].t), SFP, resT(0)}, true
+	case key == "math.Log2", key == "math.Ldexp":
+		// no exact model: an unconstrained function of the arguments (sound over-approximation)
+		name := "uf_" + strings.ReplaceAll(key, ".", "_")
+		var as []Sort
+		var ts []string
+		for _, a := range args {
+			as = append(as, a.s)
+			ts = append(ts, a.t)
+		}
+		vc.declareFun(name, as, SFP)
+		return Val{sx(name, ts...), SFP, resT(0)}, true
 	case key == "math.Pow":
 		// A-POW: math.Pow(2, k) for integral k in [0,1023] is exactly 2^k, +Inf above; other arguments unconstrained.
 		vc.used["A-POW"] = true
